@@ -16,15 +16,19 @@ func init() {
 		ID: "C06",
 		Explanation: `R06.1 every WoundKind the validator side can emit has a case in the healer's switch; ` +
 			`R06.2 in Validate's directory and symlink passes an error from os.Lstat/os.Readlink is returned only after a classification that tests both not-exist and not-a-directory (ENOTDIR arises when a parent was replaced by a file), otherwise it becomes a wound; ` +
-			`R06.3 repair actions: DIR - every success path consults os.Lstat, returns early only for a real directory, removes a non-directory before MkdirAll and otherwise ends in MkdirAll; SYMLINK - MkdirAll(parent), removal of whatever exists, then os.Symlink(entry.Dest, path) on every success path; FILE - queued once per file and marked whenever queued; ` +
+			`R06.3 repair actions: DIR - every success path consults os.Lstat, returns early only for a real directory, removes a non-directory before MkdirAll and otherwise ends in MkdirAll; SYMLINK - MkdirAll(parent), removal of whatever exists, then os.Symlink(entry.Dest, path) on every success path; FILE - queued once per file and marked whenever queued; R06.5 no function of pwr / pwr/bowl that changes a tree examines a path with os.Stat (which follows links): the kind of what is at an entry's path is decided with Lstat; ` +
 			`(R06.4 of the design, queue capacity, was dropped as not necessary.) ` +
 			`NOT decided: that healed content equals the signed content, validator/healer interleavings, behaviour under cancellation.`,
 		Assumptions: []string{"the healer's repair switch is the function literal in ArchiveHealer.Do that switches on wound.Kind"},
 		Run:         runC06,
+		Fixtures:    fixturesNoFollow,
+		FixturePkg:  "statfx",
 	})
 }
 
 func runC06(c *core.Ctx) {
+	c.Rule("R06.5", "what is at an entry's path is examined without following links (validator, healer, bowl)")
+	ruleNoFollow(c, "R06.5", "/pwr", "/pwr/bowl")
 	c.Rule("R06.1", "wound kinds emitted ⊆ kinds handled by the healer")
 	c.Rule("R06.2", "Lstat/Readlink errors in the dir/symlink passes are returned only after testing not-exist AND not-a-directory")
 	c.Rule("R06.3", "repair actions of the DIR / SYMLINK / FILE cases")
@@ -130,22 +134,26 @@ func runC06(c *core.Ctx) {
 				continue
 			}
 			n++
-			var classes map[string]bool
-			guarded := hasGuard(rs.Ret, func(g core.Guard) bool {
+			// the error classes excluded on the way to this return: every predicate found false, whether the
+			// classification is one helper or spelled out (`!os.IsNotExist(e) && !errors.Is(e, syscall.ENOTDIR)`)
+			classes := map[string]bool{}
+			for _, g := range core.Guards(rs.Ret) {
 				cl, ok := g.Cond.(*ssa.Call)
 				if !ok || g.Val {
-					return false
+					continue
 				}
-				f := cl.Call.StaticCallee()
-				if f == nil {
-					return false
+				if f := cl.Call.StaticCallee(); f != nil {
+					for k := range predicateClasses(c.P, f, 0) {
+						classes[k] = true
+					}
+					if n := core.CalleeName(cl); (n == "errors.Is" || n == "github.com/pkg/errors.Is") && len(cl.Call.Args) == 2 {
+						for k := range errnoClasses(c.P, cl.Call.Args[1]) {
+							classes[k] = true
+						}
+					}
 				}
-				cls := predicateClasses(c.P, f, 0)
-				if len(cls) > 0 {
-					classes = cls
-				}
-				return cls["notexist"] && cls["notdir"]
-			})
+			}
+			guarded := classes["notexist"] && classes["notdir"]
 			var got []string
 			for k := range classes {
 				got = append(got, k)
@@ -376,40 +384,14 @@ func predicateClasses(p *core.Prog, f *ssa.Function, depth int) map[string]bool 
 	if f.Blocks == nil || !core.InModule(f) {
 		return out
 	}
-	enotdir := int64(-1)
-	enoent := int64(-1)
-	if sp := p.All["syscall"]; sp != nil {
-		if k, ok := sp.Types.Scope().Lookup("ENOTDIR").(*types.Const); ok {
-			enotdir, _ = constInt64(k)
-		}
-		if k, ok := sp.Types.Scope().Lookup("ENOENT").(*types.Const); ok {
-			enoent, _ = constInt64(k)
-		}
-	}
 	core.Instrs(f, func(in ssa.Instruction) {
 		var ops []*ssa.Value
 		for _, op := range in.Operands(ops) {
 			if op == nil || *op == nil {
 				continue
 			}
-			v := core.StripConv(*op)
-			if k, ok := v.(*ssa.Const); ok && core.TypeName(k.Type()) == "syscall.Errno" {
-				if i, isC := core.ConstInt(k); isC {
-					if i == enotdir {
-						out["notdir"] = true
-					}
-					if i == enoent {
-						out["notexist"] = true
-					}
-				}
-			}
-			if g, ok := v.(*ssa.Global); ok && strings.HasSuffix(g.String(), "ErrNotExist") {
-				out["notexist"] = true
-			}
-			if ld, ok := v.(*ssa.UnOp); ok {
-				if g, ok := ld.X.(*ssa.Global); ok && strings.HasSuffix(g.String(), "ErrNotExist") {
-					out["notexist"] = true
-				}
+			for k := range errnoClasses(p, *op) {
+				out[k] = true
 			}
 		}
 		if cl, ok := in.(ssa.CallInstruction); ok {
@@ -421,4 +403,53 @@ func predicateClasses(p *core.Prog, f *ssa.Function, depth int) map[string]bool 
 		}
 	})
 	return out
+}
+
+// errnoClasses classifies a value used as an error sentinel: syscall.ENOTDIR /
+// ENOENT constants and the ErrNotExist variables.
+func errnoClasses(p *core.Prog, op ssa.Value) map[string]bool {
+	out := map[string]bool{}
+	enotdir := int64(-1)
+	enoent := int64(-1)
+	if sp := p.All["syscall"]; sp != nil {
+		if k, ok := sp.Types.Scope().Lookup("ENOTDIR").(*types.Const); ok {
+			enotdir, _ = constInt64(k)
+		}
+		if k, ok := sp.Types.Scope().Lookup("ENOENT").(*types.Const); ok {
+			enoent, _ = constInt64(k)
+		}
+	}
+	v := core.StripConv(op)
+	if k, ok := v.(*ssa.Const); ok && core.TypeName(k.Type()) == "syscall.Errno" {
+		if i, isC := core.ConstInt(k); isC {
+			if i == enotdir {
+				out["notdir"] = true
+			}
+			if i == enoent {
+				out["notexist"] = true
+			}
+		}
+	}
+	if g, ok := v.(*ssa.Global); ok && strings.HasSuffix(g.String(), "ErrNotExist") {
+		out["notexist"] = true
+	}
+	if ld, ok := v.(*ssa.UnOp); ok {
+		if g, ok := ld.X.(*ssa.Global); ok && strings.HasSuffix(g.String(), "ErrNotExist") {
+			out["notexist"] = true
+		}
+	}
+	return out
+}
+
+func fixturesNoFollow(fc *core.Ctx) map[string]bool {
+	rep := map[string]bool{}
+	for _, fn := range fc.P.SrcFuncs() {
+		if fn.Parent() != nil || !strings.HasSuffix(core.PkgPathOf(fn), "/statfx") {
+			continue
+		}
+		if len(followingStats(fn)) > 0 {
+			rep[fn.Name()] = true
+		}
+	}
+	return rep
 }
